@@ -34,12 +34,12 @@ Example hist1_outcome :
 Proof. vm_compute. repeat split; reflexivity. Qed.
 
 (* the same history, step by step, is a reachable one (fresh session identifiers) *)
-Lemma hist1_reachable : reachable mm3 (fst (runh mm3 world0 hist1)).
+Lemma hist1_reachable : reachable (fst (runh mm3 world0 hist1)).
 Proof.
-  assert (H : forall l w, reachable mm3 w ->
+  assert (H : forall l w, reachable w ->
             (fix ok (w : world) (l : list event) : Prop :=
                match l with [] => True | e :: r => fresh w e /\ ok (fst (step mm3 w e)) r end) w l ->
-            reachable mm3 (fst (runh mm3 w l))).
+            reachable (fst (runh mm3 w l))).
   { induction l as [|e l IH]; intros w HR Hok; simpl; [exact HR|].
     destruct Hok as [Hf Hok]. destruct (step mm3 w e) as [w1 o] eqn:E. specialize (IH w1).
     destruct (runh mm3 w1 l) as [w2 os] eqn:E2. simpl. simpl in IH. apply IH.
